@@ -441,6 +441,9 @@ def main(argv: list[str]) -> int:
     except ValueError:
         seed = 1
     pid = a.pid.upper()
+    import warnings
+
+    warnings.filterwarnings("ignore")  # numpy overflow/invalid warnings of the code under test are not findings
     try:
         env.ensure_deps()
         env.import_fuzzylite()
